@@ -1,6 +1,6 @@
 --------------------------- MODULE TreeOrderTrace ---------------------------
 (* Trace validation for TreeOrder.tla: NDJSON events recorded from real object trees        *)
-(* (harness/treeorder TestRandomOrder): Reset | Add | Deliver | Reopen | History.           *)
+(* (harness/treeorder TestRandomOrder): Reset | Add | Deliver | Reject | Reopen | History.  *)
 (* Every event carries the arguments of the call and the projected state of the acting tree *)
 (* after it (stored order, presented order, root, heads, mode).  Each event is replayed with *)
 (* the action of the design spec; if the predicted state differs from the recorded one the   *)
@@ -65,6 +65,17 @@ TrDeliver ==
           /\ drift' = drift + (IF ok THEN 0 ELSE 1)
     /\ UNCHANGED ch /\ lastHist' = <<>>
 
+\* a payload the tree refused after attaching the change `bad` (DeliverRejected): the tree is what it was
+TrReject ==
+    /\ IsEvent("Reject")
+    /\ LET x   == Trace[l]
+           st  == rep[x.r]
+           st2 == RejectTo(st, x.batch, ToSet(x.heads), x.path)
+           ok  == RejectedBy(st, x.batch, ToSet(x.heads), x.path, x.bad) /\ Matches(st2, x.st)
+       IN /\ rep' = [rep EXCEPT ![x.r] = IF ok THEN st2 ELSE Adopt(x.st)]
+          /\ drift' = drift + (IF ok THEN 0 ELSE 1)
+    /\ UNCHANGED ch /\ lastHist' = <<>>
+
 TrReopen ==
     /\ IsEvent("Reopen")
     /\ LET x   == Trace[l]
@@ -83,7 +94,7 @@ TrHistory ==
           /\ lastHist' = [r |-> x.r, heads |-> ToSet(x.heads), root |-> x.hroot, iter |-> x.hiter]
     /\ UNCHANGED vars
 
-TraceNext == TrReset \/ TrAdd \/ TrDeliver \/ TrReopen \/ TrHistory
+TraceNext == TrReset \/ TrAdd \/ TrDeliver \/ TrReject \/ TrReopen \/ TrHistory
 TraceSpec == TraceInit /\ [][TraceNext]_tvars
 
 (* ---- properties, evaluated on recorded states ---- *)
@@ -99,9 +110,9 @@ TraceHistoryIsRestriction ==
 
 \* Append => prefix; stored order never renumbered; a reopened tree equals the live one
 TraceStep ==
-    (l <= Len(Trace) /\ Trace[l].ev \in {"Add", "Deliver", "Reopen"}) =>
+    (l <= Len(Trace) /\ Trace[l].ev \in {"Add", "Deliver", "Reject", "Reopen"}) =>
         /\ AppendImpliesPrefixStep
-        /\ Trace[l].ev = "Reopen" =>
+        /\ Trace[l].ev \in {"Reopen", "Reject"} =>
              LET r == Trace[l].r IN rep'[r].iter = rep[r].iter /\ rep'[r].root = rep[r].root
 TraceStepProp == [][TraceStep]_tvars
 
